@@ -65,12 +65,71 @@ func (e *Engine) restVal(st *State, m MapV, mc MapC, k *Term) Value {
 		return e.zero(mc.ValT)
 	}
 	id := fmt.Sprintf("%s|%d", mc.RestID, k.id)
-	if o, ok := e.restObjs[id]; ok {
-		return e.heapGet(st, o)
+	pre := sanitize(mc.RestID)
+	if pt, isPtr := under(mc.ValT).(*types.Pointer); isPtr {
+		// pointer values: nil-ness and the pointee's initial fields are functions of the key,
+		// so that quantified statements over keys are meaningful; the pointee is an
+		// executor-level object per key term
+		o, ok := e.restObjs[id]
+		if !ok {
+			o = e.newObj("mapval", pt.Elem(), false)
+			e.restObjs[id] = o
+			tmp := &State{}
+			e.initHeap[o] = e.freshKeyed(tmp, pt.Elem(), pre+"_v", k)
+			e.lazyFacts[o] = tmp.pc
+		}
+		return PtrV{Obj: o, Nil: App("tq_uf_bool_"+pre+"_nil", SBool, k), Elem: pt.Elem()}
 	}
-	o := e.newObj("mapval", mc.ValT, false)
-	e.restObjs[id] = o
-	return e.heapGet(st, o)
+	if v, ok := e.restVals[id]; ok {
+		return v
+	}
+	tmp := &State{}
+	v := e.freshKeyed(tmp, mc.ValT, pre+"_v", k)
+	for _, f := range tmp.pc {
+		st.assume(f)
+	}
+	e.restVals[id] = v
+	return v
+}
+
+// freshKeyed: a value of type t whose scalar leaves are uninterpreted functions of key k.
+func (e *Engine) freshKeyed(st *State, t types.Type, pre string, k *Term) Value {
+	ground := len(k.fbv) == 0
+	switch u := under(t).(type) {
+	case *types.Basic:
+		switch {
+		case u.Info()&types.IsBoolean != 0:
+			return App("tq_uf_bool_"+pre, SBool, k)
+		case u.Info()&types.IsInteger != 0:
+			v := App("tq_uf_int_"+pre, SInt, k)
+			lo, hi := intRange(t)
+			if ground {
+				st.assume(Le(NumB(lo), v))
+				st.assume(Le(v, NumB(hi)))
+			}
+			if lo.Sign() == 0 {
+				v.Hi = hi
+			}
+			return v
+		case u.Info()&types.IsString != 0:
+			ln := App("tq_uf_int_"+pre+"_len", SInt, k)
+			if ground {
+				st.assume(Le(Num(0), ln))
+				st.assume(Le(ln, NumB(maxLen)))
+			}
+			return StrV{Arr: App("tq_uf_arr_"+pre, SArrB, k), Off: Num(0), Len: ln}
+		}
+	case *types.Struct:
+		sv := StructV{T: u, F: make([]Value, u.NumFields())}
+		for i := 0; i < u.NumFields(); i++ {
+			sv.F[i] = e.freshKeyed(st, u.Field(i).Type(), fmt.Sprintf("%s_%s", pre, sanitize(u.Field(i).Name())), k)
+		}
+		return sv
+	case *types.Interface:
+		ref := App("tq_uf_ref_"+pre, SRef, k)
+		return e.ifaceFromRef(ref, t)
+	}
+	return e.fresh(st, t, pre)
 }
 
 // mapGet returns (value, present). When several association entries may equal the
@@ -106,7 +165,8 @@ func (e *Engine) mapGet(st *State, m MapV, key Value) (Value, *Term) {
 		}
 		mv, ok := e.mergeValues(eq, ev, val)
 		if !ok {
-			e.toolError("map lookup: cannot merge candidate values for key %s", k)
+			// alternatives that cannot be merged structurally (pointers to different objects)
+			val = ChoiceV{Cond: eq, A: ev, B: val}
 			continue
 		}
 		val = mv
@@ -245,4 +305,82 @@ func (e *Engine) rangeNext(fr *Frame, st *State, x *ssa.Next) []fork {
 	e.noteAssumption("range over map: iteration order/coverage abstracted (nondeterministic member)")
 	fr.env[x] = tv
 	return nil
+}
+
+// mapValNil: nil-ness of the (pointer/interface) value stored at key k.
+func (e *Engine) mapValNil(st *State, m MapV, key Value) *Term {
+	if m.Obj == nil {
+		return TTrue
+	}
+	mc := e.mapContent(st, m)
+	k := e.keyTerm(st, key)
+	nilOf := func(v Value) *Term {
+		switch x := v.(type) {
+		case PtrV:
+			return x.Nil
+		case IfaceV:
+			return e.ifaceNil(x)
+		case nil:
+			return TTrue
+		}
+		return TFalse
+	}
+	res := nilOf(e.restVal(st, m, mc, k))
+	if mc.RestID == "" {
+		res = TTrue
+	}
+	res = Ite(Select(baseDom(mc), k), res, TTrue)
+	for _, en := range mc.Assoc {
+		var n *Term
+		if en.Val == nil {
+			n = TTrue
+		} else {
+			n = nilOf(en.Val)
+		}
+		res = Ite(Eq(k, en.Key), n, res)
+	}
+	return res
+}
+
+// baseDom: the domain before any association entry was added.
+func baseDom(mc MapC) *Term {
+	d := mc.Dom
+	for i := 0; i < len(mc.Assoc) && d.Op == "store"; i++ {
+		d = d.Args[0]
+	}
+	return d
+}
+
+// mapSameExcept: every key other than k has the same membership and value in a and b
+// (b is the older map; a was derived from it by updates).
+func (e *Engine) mapSameExcept(st, old *State, a, b MapV, key Value) *Term {
+	if a.Obj != b.Obj || a.Obj == nil {
+		return TFalse
+	}
+	ma, mb := e.mapContent(st, a), e.mapContent(old, b)
+	if ma.RestID != mb.RestID || len(ma.Assoc) < len(mb.Assoc) {
+		return TFalse
+	}
+	k := e.keyTerm(st, key)
+	conj := []*Term{}
+	for i, en := range ma.Assoc {
+		if i < len(mb.Assoc) {
+			if en.Key != mb.Assoc[i].Key {
+				return TFalse
+			}
+			continue
+		}
+		conj = append(conj, Eq(en.Key, k))
+	}
+	j := FreshBound("mk", SInt)
+	conj = append(conj, Forall([]*Term{j}, Implies(Ne(j, k), Iff(Select(ma.Dom, j), Select(mb.Dom, j)))))
+	return And(conj...)
+}
+
+// ChoiceV: a value that is A when Cond holds and B otherwise, for shapes that cannot
+// be merged into one value (pointers to distinct objects). Contract evaluation maps
+// field/index/equality over the alternatives.
+type ChoiceV struct {
+	Cond *Term
+	A, B Value
 }
